@@ -19,7 +19,7 @@ KEYS = [b"a", b"b", b"k"]
 
 def small_map(rng):
     n = rng.below(3)
-    return ("m", [(("s", KEYS[i]), rng.choice([1, 2, ("s", b"x"), True])) for i in sorted(set(rng.below(3) for _ in range(n)))])
+    return ("m", [(("s", KEYS[i]), rng.choice([1, 2, ("s", b"x"), True, None, ("s", b""), 0])) for i in sorted(set(rng.below(3) for _ in range(n)))])
 
 
 def tree_cases(rng, maxlen, count):
@@ -43,7 +43,7 @@ def tree_cases(rng, maxlen, count):
                 if c == 0:
                     nmap -= 1
             else:
-                ops.append("mut:%d:%s:%s" % (rng.below(nmap), rng.choice(KEYS).hex(), T(rng.choice([7, 8, ("s", b"mut")]))))
+                ops.append("mut:%d:%s:%s" % (rng.below(nmap), rng.choice(KEYS).hex(), T(rng.choice([7, 8, ("s", b"mut"), None]))))
         out.append("tags t%d ops=%s" % (k, ";".join(ops)))
     return out
 
@@ -126,7 +126,7 @@ def served(rng, ident):
     for i in range(k):
         nonce = 100 + i
         keys = [x for x in pool if rng.chance(1, 3)]
-        tags = ("m", [(("s", x), rng.choice([("s", b"v%d" % i), i, True])) for x in keys]) if (keys and rng.chance(4, 5)) else None
+        tags = ("m", [(("s", x), rng.choice([("s", b"v%d" % i), i, True, None])) for x in keys]) if (keys and rng.chance(4, 5)) else None
         kind = rng.below(3)
         if kind == 0:
             s.append(scn.feed_call(50 + i, nonce, tags=tags))
